@@ -148,7 +148,12 @@ impl<'a> Machine<'a> {
             // products are bounded before they are materialised
             if matches!(
                 node.op,
-                Op::Join { .. } | Op::CrossJoin { .. } | Op::JoinMultisetHalf { .. } | Op::JoinFused { .. } | Op::CrossSingleton { .. }
+                Op::Join { .. }
+                    | Op::CrossJoin { .. }
+                    | Op::JoinMultisetHalf { .. }
+                    | Op::JoinFused { .. }
+                    | Op::LatticeJoinFused { .. }
+                    | Op::CrossSingleton { .. }
             ) {
                 let (la, lb) = self.state_sizes(i);
                 if (ins[0].len() + la) * (ins[1].len() + lb).max(1) > 4 * MAX_LEN {
@@ -251,7 +256,7 @@ impl<'a> Machine<'a> {
                     }
                 }
             }
-            Op::JoinFused { pers, .. } => {
+            Op::JoinFused { pers, .. } | Op::LatticeJoinFused { pers } => {
                 let p = resolve_pers(pers, 2);
                 if let St::FusedL(la, ra, lm, rm) = st {
                     if p[0] == Pers::Tick {
@@ -725,6 +730,67 @@ impl<'a> Machine<'a> {
                 self.st[i] = St::Acc(acc.clone());
                 vec![items, vec![acc]]
             }
+            // _lattice_fold_batch: "Batches streaming input and releases it downstream when a signal is
+            // delivered ... while also folding it into a single lattice data structure."
+            Op::LatticeFoldBatch => {
+                let mut acc = match &self.st[i] {
+                    St::OptAcc(a) => a.clone(),
+                    _ => None,
+                };
+                for x in &ins[0] {
+                    match &mut acc {
+                        None => acc = Some(x.clone()),
+                        Some(a) => {
+                            lattice_merge(a, x);
+                        }
+                    }
+                }
+                if !ins[1].is_empty() {
+                    match acc.take() {
+                        Some(a) => {
+                            self.st[i] = St::OptAcc(None);
+                            one(vec![a])
+                        }
+                        None => {
+                            // what a signal releases when nothing has been collected is not documented
+                            self.bad("_lattice_fold_batch signalled with nothing collected: not documented");
+                            one(vec![])
+                        }
+                    }
+                } else {
+                    self.st[i] = St::OptAcc(acc);
+                    one(vec![])
+                }
+            }
+            // _lattice_join_fused_join: "Performs a fold_keyed with lattice-merge aggregate function on
+            // each input and then forms the equijoin of the resulting key/value pairs", persistence as
+            // for join; revealed as (k, (v1, v2)) by the documented map.
+            Op::LatticeJoinFused { .. } => {
+                if !matches!(self.st[i], St::FusedL(..)) {
+                    self.st[i] = St::FusedL(BTreeMap::new(), BTreeMap::new(), vec![], vec![]);
+                }
+                let St::FusedL(la, ra, _, _) = &mut self.st[i] else { unreachable!() };
+                for (m, items) in [(&mut *la, &ins[0]), (&mut *ra, &ins[1])] {
+                    for x in items {
+                        let (k, v) = x.kv();
+                        match m.get_mut(k) {
+                            None => {
+                                m.insert(k.clone(), v.clone());
+                            }
+                            Some(a) => {
+                                lattice_merge(a, v);
+                            }
+                        }
+                    }
+                }
+                let mut v = vec![];
+                for (k, a) in la.iter() {
+                    if let Some(b) = ra.get(k) {
+                        v.push(Val::T(vec![k.clone(), Val::p(a.int(), b.int())]));
+                    }
+                }
+                one(v)
+            }
             // "Takes an input stream of enum instances and splits them into their variants."
             // (each output carries the tuple of the variant's fields)
             Op::DemuxEnum => {
@@ -867,6 +933,10 @@ pub fn map_fn(f: &MapFn, x: &Val) -> Val {
         MapFn::ToMax => Val::Mx(x.int()),
         MapFn::FromMax => Val::I(x.int()),
         MapFn::ToSet => Val::S([Val::I(x.int())].into_iter().collect()),
+        MapFn::KeyMax => {
+            let (k, v) = x.kv();
+            Val::T(vec![k.clone(), Val::Mx(v.int())])
+        }
         MapFn::ToShape => {
             let v = x.int();
             match v.rem_euclid(3) {
